@@ -113,6 +113,8 @@ def observe(case, custom=None):
 
 def render(case):
     """Coq tuple (ty, value, observed try, observed collect) or None when outside the term language"""
+    if not case.built.coq or 'None' == case.built.coq or '%NOCOQ%' in case.built.coq:
+        return None
     try:
         v = val_to_coq(case.value)
         o = case.try_obs
